@@ -275,8 +275,8 @@ func generatedDocs(deep int) []gdoc {
 		}
 		// wide: many kids all the same page
 		d = baseDoc()
-		d.objs[2] = "<</Type/Pages/Kids[" + strings.Repeat("3 0 R ", 5000) + "]/Count 5000/MediaBox[0 0 200 200]>>"
-		add("pagetree-same-page-5000", d.bytes(), "")
+		d.objs[2] = "<</Type/Pages/Kids[" + strings.Repeat("3 0 R ", 300) + "]/Count 300/MediaBox[0 0 200 200]>>"
+		add("pagetree-same-page-300", d.bytes(), "")
 		d = baseDoc()
 		d.objs[2] = "<</Type/Pages/Kids[3 0 R]/Count 999999999999/MediaBox[0 0 200 200]>>"
 		add("pagetree-count-huge", d.bytes(), "")
@@ -286,6 +286,32 @@ func generatedDocs(deep int) []gdoc {
 		d = baseDoc()
 		d.objs[2] = "<</Type/Pages/Kids 2 0 R/Count 1>>"
 		add("pagetree-kids-is-self-ref", d.bytes(), "err")
+	}
+
+	// ---- small documents for nil dereferences the mutation stream found (kept so that they are exercised with every seed)
+	{
+		d := baseDoc()
+		d.objs[6] = "<</Title 9 0 R/Producer(x)>>"
+		d.trailer = "/Info 6 0 R"
+		add("info-value-dangling-ref", d.bytes(), "")
+		d = baseDoc()
+		d.objs[6] = "<</Title null/Producer(x)>>"
+		d.trailer = "/Info 6 0 R"
+		add("info-value-null", d.bytes(), "")
+		d = baseDoc()
+		d.objs[1] = "<</Type/Catalog/Pages<</Type/Pages/Kids[3 0 R]/Count 1/MediaBox[0 0 200 200]>>>>"
+		add("pages-direct-dict", d.bytes(), "")
+		d = baseDoc()
+		d.objs[1] = "<</Type/Catalog/Pages 2>>"
+		add("pages-integer", d.bytes(), "")
+		d = baseDoc()
+		d.objs[3] = "<</Type/Page/Parent 2 0 R/Contents 4 0 R/Resources<</XObject<</X 6 0 R>>/Font<</F1 5 0 R>>>>>>"
+		d.objs[4] = stream("", "/X Do")
+		d.objs[6] = stream("/Type/XObject/Subtype/Form/FormType 1/BBox[0 0 1 1]/Resources 1 0 R", "BT ET")
+		add("xobject-resources-is-catalog", d.bytes(), "")
+		d = baseDoc()
+		d.objs[3] = "<</Type/Page/Parent 2 0 R/Contents 4 0 R/Resources 1 0 R>>"
+		add("page-resources-is-catalog", d.bytes(), "")
 	}
 
 	// ---- outlines
